@@ -176,7 +176,7 @@ def virtual_case(seed: int, idx: int, res: UnitResult) -> None:
 def gen_program(r: Any, kind: str) -> dict:
     period = r.choice([0.1, 0.2, 0.5])
     return {"kind": kind, "period": period, "period_as": r.choice(["float", "timedelta"]), "init": r.choice([None, 0, 5]),
-            "work": r.choice([0.0, 0.0, 0.0, period / 4]), "raise_at": r.choice([None, None, 2, 3]),
+            "work": r.choice([0.0, 0.0, 0.0, period / 4, period, period * 1.5]), "raise_at": r.choice([None, None, 2, 3]),
             "dispose_after": r.choice([None, period * 2.5, period * 3, period * 0.5, period * 4.25]), "handler": r.choice([True, True, False]),
             "horizon": period * r.choice([5, 6])}
 
@@ -185,6 +185,8 @@ HAND = [
     {"kind": "eventloop", "period": 0.1, "period_as": "float", "init": 0, "work": 0.0, "raise_at": None, "dispose_after": 0.25, "handler": True, "horizon": 0.5},
     {"kind": "newthread", "period": 0.1, "period_as": "float", "init": None, "work": 0.0, "raise_at": None, "dispose_after": 0.2, "handler": True, "horizon": 0.5},
     {"kind": "catch", "period": 0.1, "period_as": "timedelta", "init": 1, "work": 0.0, "raise_at": 2, "dispose_after": None, "handler": True, "horizon": 0.5},
+    {"kind": "newthread", "period": 0.1, "period_as": "float", "init": 0, "work": 0.15, "raise_at": None, "dispose_after": 0.2, "handler": True, "horizon": 0.6},
+    {"kind": "eventloop", "period": 0.1, "period_as": "float", "init": 0, "work": 0.1, "raise_at": None, "dispose_after": 0.25, "handler": True, "horizon": 0.6},
 ]
 
 
@@ -271,15 +273,14 @@ def scenario(c: Any, P: dict) -> dict:
         stop = min(stop, P["dispose_after"])
     n_min = 0
     k = 1
-    tcur = 0.0
-    while True:
-        tcur = k * period + (k - 1) * P["work"] * 0    # drift is corrected by the schedulers: ticks stay on the grid when work < period
-        if tcur >= stop - 1e-6:
-            break
+    tcur = period
+    while tcur < stop - 1e-6:
+        # ticks stay on the period grid while the action is shorter than the period; a longer action delays the next tick
         n_min += 1
         if P["raise_at"] is not None and k == P["raise_at"]:
             break
         k += 1
+        tcur += max(period, P["work"])
     if len(calls) < n_min:
         viol.append(("C35:%s:missing-invocations" % kind, {"invocations": len(calls), "at_least": n_min}))
     if kind == "catch" and P["raise_at"] is not None and len(calls) >= P["raise_at"]:
